@@ -29,8 +29,9 @@ if [ "$id" = C13 ]; then
   python3 e4/gen_overlay.py 13 > .work/overlay13.log 2>&1 || { cat .work/overlay13.log; echo "SELF-CHECK property=C13 overlay generation failed"; exit 2; }
   go build $MODFLAG -overlay .work/overlay13.json -tags e4 -o bin/vcheck13 ./cmd/vcheck19 2> .work/build13.log || { cat .work/build13.log; echo "SELF-CHECK property=C13 E4 build (overlay) failed"; exit 2; }
   [ $rc1 = 0 ] || [ $rc1 = 1 ] || exit $rc1
-  ./bin/vcheck13 "$tier" stage13; rc2=$?
-  [ $rc1 = 1 ] && exit 1
+  out2=$(./bin/vcheck13 "$tier" stage13); rc2=$?
+  if [ $rc1 = 1 ]; then echo "$out2" | grep -v '^OK property=C13'; exit 1; fi
+  echo "$out2"
   exit $rc2
 fi
 exec ./bin/vcheck "$id" "$tier"
